@@ -6,6 +6,6 @@ CONSTANTS
   MaxLen = 2
   ShardSize = 65536
   NShards = 128
-  SweepOps = {0, 494, 32768, 65535}
+  SweepOps = {494, 65535}
 INVARIANTS Recovered InStep CodecShard CodecBoundary EmitInv
 CHECK_DEADLOCK FALSE
